@@ -58,6 +58,7 @@ def _check_main(run, P):
     reads_writes(run, P, classes)
 
     _mapper_config(run, P)
+    _written_whole(run, P, classes)
     _flow(run, P, classes)
     _ident(run, P, classes)
 
@@ -102,6 +103,28 @@ def reads_writes(run, P, classes, r_reads="C08.reads", r_writes="C08.writes"):
                             f"{K.name}.get_written_variables() does not name "
                             f"({sorted(W)})"))
 
+
+
+def _written_whole(run, P, classes, rule="C08.writes"):
+    """The written set is what the statement assigns - never reduced."""
+    seen = set()
+    for K in classes:
+        for f in sm._chain(P, K, "get_written_variables"):
+            if f in seen:
+                continue
+            seen.add(f)
+            cut = [x for x in ast.walk(f.node)
+                   if (isinstance(x, ast.BinOp) and isinstance(x.op, (ast.Sub, ast.BitAnd, ast.BitXor)))
+                   or (isinstance(x, ast.AugAssign) and isinstance(x.op, (ast.Sub, ast.BitAnd, ast.BitXor)))
+                   or (isinstance(x, ast.Call) and isinstance(x.func, ast.Attribute)
+                       and x.func.attr in ("difference", "difference_update", "intersection",
+                                           "discard", "remove", "symmetric_difference"))]
+            run.ob(rule, f, cut[0] if cut else f.node, not cut,
+                   construct=f"{f.qualname}: nothing is taken out of the written set"
+                             + (f" (found {norm(cut[0], 60)})" if cut else ""),
+                   why="subtracting the unknowns of an implicit solve is right for the *read* "
+                       "set; taken out of the written set, 'y <- solve y: ...' declares no "
+                       "write of y, and later readers and writers of y get no edge to it")
 
 
 def _mapper_config(run, P):
